@@ -186,6 +186,9 @@ pub(crate) async fn build_node(dir: &std::path::Path) -> Arc<AppShareData> {
     // steps as `auto_init_raft` itself, after the node has been built.
     std::env::set_var("RNACOS_RAFT_AUTO_INIT", "false");
     std::env::remove_var("RNACOS_RAFT_JOIN_ADDR");
+    // real logins (ops `login`): no captcha picture to solve, no hourly limit per user name
+    std::env::set_var("RNACOS_CONSOLE_ENABLE_CAPTCHA", "false");
+    std::env::set_var("RNACOS_CONSOLE_LOGIN_ONE_HOUR_LIMIT", "100000");
     let sys_config = Arc::new(AppSysConfig::init_from_env());
     let factory_data = config_factory(sys_config.clone()).await.expect("config_factory");
     let app = build_share_data(factory_data).expect("build_share_data");
@@ -711,6 +714,8 @@ pub fn run() {
         .await;
         let mut adm = Admin { app: app.clone(), hid: 0 };
         let mut sessions: Vec<String> = vec![];
+        // session alias -> token issued by a real login
+        let mut tokens: Vec<(String, String)> = vec![];
         // fixtures are restored after a write only when the current case has seeded them
         let mut seeded = false;
         for l in &lines {
@@ -719,6 +724,7 @@ pub fn run() {
                 for s in sessions.drain(..) {
                     drop_session(&app, &s).await;
                 }
+                tokens.clear();
                 adm.reset(false).await;
                 seeded = false;
                 out.push(l.to_string());
@@ -742,6 +748,92 @@ pub fn run() {
                         sessions.push(ws[1].to_string());
                     }
                     out.push("ok".to_string());
+                }
+                // user administration through the console's own endpoints (as the admin session `adm`), then a real login:
+                // the privilege a session carries is whatever add_user / update_user stored and login copied
+                //   mkuser|upduser <name> [wall=<0|1>] [w=<csv|->] [ball=<0|1>] [b=<csv|->]   (an absent key = the field is not sent)
+                Some(op @ ("mkuser" | "upduser")) if ws.len() >= 2 => {
+                    put_session(&app, "adm", &["en=0", "wall=1", "w=-", "ball=0", "b=-"]).await;
+                    if !sessions.iter().any(|s| s == "adm") {
+                        sessions.push("adm".to_string());
+                    }
+                    let mut pr = serde_json::Map::new();
+                    let has = |k: &str| ws.iter().any(|w| w.starts_with(&format!("{}=", k)));
+                    if has("wall") {
+                        pr.insert("whitelistIsAll".to_string(), serde_json::json!(kv(&ws, "wall") == "1"));
+                    }
+                    if has("ball") {
+                        pr.insert("blacklistIsAll".to_string(), serde_json::json!(kv(&ws, "ball") == "1"));
+                    }
+                    if has("w") {
+                        pr.insert("whitelist".to_string(), serde_json::json!(csv(kv(&ws, "w"))));
+                    }
+                    if has("b") {
+                        pr.insert("blacklist".to_string(), serde_json::json!(csv(kv(&ws, "b"))));
+                    }
+                    let mut body = serde_json::Map::new();
+                    body.insert("username".to_string(), serde_json::json!(format!("u_{}", ws[1])));
+                    if op == "mkuser" {
+                        body.insert("password".to_string(), serde_json::json!(format!("pw-{}", ws[1])));
+                        body.insert("roles".to_string(), serde_json::json!("0"));
+                        body.insert("nickname".to_string(), serde_json::json!(ws[1]));
+                    }
+                    if !pr.is_empty() {
+                        body.insert("namespacePrivilegeParam".to_string(), serde_json::Value::Object(pr));
+                    }
+                    let path = if op == "mkuser" { "/rnacos/api/console/v2/user/add" } else { "/rnacos/api/console/v2/user/update" };
+                    let req = test::TestRequest::post()
+                        .uri(path)
+                        .insert_header(("Content-Type", "application/json"))
+                        .insert_header(("Token", "adm"))
+                        .set_payload(serde_json::Value::Object(body).to_string())
+                        .peer_addr("127.0.0.1:50000".parse().unwrap())
+                        .to_request();
+                    let a = match test::try_call_service(&console, req).await {
+                        Ok(resp) => {
+                            let status = resp.status().as_u16();
+                            let body = resp.into_body().try_into_bytes().map(|b| b.to_vec()).unwrap_or_default();
+                            let text = String::from_utf8_lossy(&body).to_string();
+                            if status == 200 && text.contains("\"success\":true") { "ok".to_string() } else { format!("error {} {}", status, text.chars().take(60).collect::<String>()) }
+                        }
+                        Err(e) => format!("error 0 {}", e.to_string().chars().take(60).collect::<String>()),
+                    };
+                    // the user manager stores through raft and tells the caches afterwards
+                    tokio::time::sleep(std::time::Duration::from_millis(60)).await;
+                    out.push(a);
+                }
+                //   login <name> as=<session alias>
+                Some("login") if ws.len() >= 3 => {
+                    let alias = kv(&ws, "as").to_string();
+                    let pw = rnacos::common::crypto_utils::encode_base64(format!("pw-{}", ws[1]).as_bytes());
+                    let req = test::TestRequest::post()
+                        .uri("/rnacos/api/console/v2/login/login")
+                        .insert_header(("Content-Type", "application/x-www-form-urlencoded"))
+                        .set_payload(format!("username=u_{}&password={}", ws[1], urlenc(&pw)))
+                        .peer_addr("127.0.0.1:50000".parse().unwrap())
+                        .to_request();
+                    let a = match test::try_call_service(&console, req).await {
+                        Ok(resp) => {
+                            let tok = resp
+                                .headers()
+                                .get_all("set-cookie")
+                                .filter_map(|v| v.to_str().ok())
+                                .find_map(|c| c.strip_prefix("token=").map(|r| r.split(';').next().unwrap_or("").to_string()));
+                            let status = resp.status().as_u16();
+                            let body = resp.into_body().try_into_bytes().map(|b| b.to_vec()).unwrap_or_default();
+                            match tok {
+                                Some(t) if !t.is_empty() => {
+                                    tokens.retain(|(a, _)| a != &alias);
+                                    tokens.push((alias.clone(), t.clone()));
+                                    sessions.push(t);
+                                    "ok".to_string()
+                                }
+                                _ => format!("error {} {}", status, String::from_utf8_lossy(&body).chars().take(60).collect::<String>()),
+                            }
+                        }
+                        Err(e) => format!("error 0 {}", e.to_string().chars().take(60).collect::<String>()),
+                    };
+                    out.push(a);
                 }
                 Some("endpoints") => {
                     let v: Vec<String> = ENDPOINTS.iter().map(|e| format!("{}:{}:{}:{}", e.id, e.kind, e.method, e.path)).collect();
@@ -785,7 +877,9 @@ pub fn run() {
                         }
                     }
                     if !sess.is_empty() && sess != "none" {
-                        req = req.insert_header(("Token", sess.to_string()));
+                        // an alias of a real login, or the key of a session the harness stored itself
+                        let tok = tokens.iter().find(|(a, _)| a == sess).map(|(_, t)| t.clone()).unwrap_or(sess.to_string());
+                        req = req.insert_header(("Token", tok));
                     }
                     let req = req.uri(&uri).peer_addr("127.0.0.1:50000".parse().unwrap()).to_request();
                     let answer = match test::try_call_service(&console, req).await {
